@@ -224,6 +224,121 @@ pub fn test_cff(c: &crate::cffgen::CffCase, stats: &Stats, strict: bool) -> Case
     Ok(())
 }
 
+fn strict_filter(p: &guard::PanicInfo, stats: &Stats, strict: bool) -> CaseResult {
+    if strict && !p.is_overflow_or_assert() {
+        stats.class(&format!("non_overflow_panic_ignored(strict):{}", guard::rel_file(&p.file)));
+        return Ok(());
+    }
+    Err(Fail::from_panic(p))
+}
+
+/// Generated format 2 patch map: every intersecting entry's URI is expanded, then patch selection.
+/// Non-trivial: the map decoded and >= 1 URI template expansion returned Ok.
+pub fn test_uri(c: &crate::miscgen::UriMap, stats: &Stats, strict: bool) -> CaseResult {
+    use crate::miscgen::{self, TplPart};
+    let bytes = miscgen::uri_font(c);
+    let o = match guard::catch(|| miscgen::drive_uri(&bytes, c.def)) {
+        Ok(o) => o,
+        Err(p) => return strict_filter(&p, stats, strict),
+    };
+    stats.class(if c.string_ids { "ids=string" } else { "ids=numeric" });
+    if c.string_ids {
+        let mut cur = 0usize;
+        for e in &c.entries {
+            if e.has_id {
+                cur = e.id.len();
+            }
+            stats.class(match cur { 0 => "string_id_len=0", 1 => "string_id_len=1", 2 => "string_id_len=2", 3 => "string_id_len=3", 4 => "string_id_len=4", 5 => "string_id_len=5", _ => "string_id_len=6+" });
+        }
+    }
+    for p in &c.template {
+        match p {
+            TplPart::Var(v) => stats.class(["tpl {id}", "tpl {id64}", "tpl {d1}", "tpl {d2}", "tpl {d3}", "tpl {d4}"][(*v % 6) as usize]),
+            TplPart::Bad(_) | TplPart::Raw(_) => stats.class("tpl malformed piece"),
+            TplPart::Lit(_) => {}
+        }
+    }
+    if o.map_ok {
+        stats.class("map_decoded");
+    }
+    if o.group_ok {
+        stats.class("group_selected");
+    }
+    stats.class_n("patches", o.patches);
+    stats.class_n("uris_ok", o.uris_ok);
+    stats.class_n("uris_err", o.uris_err);
+    stats.class_n("group_uris", o.group_uris);
+    if o.map_ok && o.uris_ok > 0 {
+        let h = hash_json(c);
+        stats.nontrivial(h);
+        if stats.want_sample() && h % 1024 == 0 {
+            stats.sample(serde_json::json!({"uri_case": c, "uris_ok": o.uris_ok}));
+        }
+    }
+    Ok(())
+}
+
+/// Generated name table. Non-trivial: >= 1 localized string of a queried id was returned.
+pub fn test_name(c: &crate::miscgen::NameCase, stats: &Stats, strict: bool) -> CaseResult {
+    use crate::miscgen;
+    let bytes = miscgen::name_font(&c.name);
+    let (o, _) = match guard::catch(|| (miscgen::drive_names(&bytes, &c.extra_ids), skdrive::drive_file(&bytes, None, &c.args))) {
+        Ok(o) => o,
+        Err(p) => return strict_filter(&p, stats, strict),
+    };
+    stats.class(match c.name.version { 0 => "version=0", 1 => "version=1", _ => "version=other" });
+    for t in &c.name.lang_tags {
+        stats.class(match t.units.len() { 0 => "lang_tag_len=0", 1..=28 => "lang_tag_len=1-28", 29 => "lang_tag_len=29", 30 => "lang_tag_len=30", 31 => "lang_tag_len=31", 32 => "lang_tag_len=32", _ => "lang_tag_len=33+" });
+    }
+    for r in &c.name.records {
+        stats.class(match r.platform { 0 => "platform=0", 1 => "platform=1", 3 => "platform=3", _ => "platform=other" });
+        if r.language >= 0x8000 {
+            stats.class("record language>=0x8000");
+        }
+        if r.text.len_adj != 0 || r.text.off_adj != 0 {
+            stats.class("record range adjusted");
+        }
+    }
+    stats.class_n("strings", o.strings);
+    stats.class_n("strings_with_language", o.with_language);
+    stats.class_n("strings_with_lang_tag_language", o.tag_languages);
+    stats.class_n("chars", o.chars);
+    if o.opened && o.strings > 0 {
+        stats.nontrivial(hash_json(c));
+    }
+    Ok(())
+}
+
+/// Generated variable TrueType font with nested composites. Non-trivial: a draw got past argument validation.
+pub fn test_vc(c: &crate::miscgen::VcCase, stats: &Stats, strict: bool) -> CaseResult {
+    use crate::miscgen;
+    let bytes = miscgen::vc_build(&c.font);
+    let o = match guard::catch(|| skdrive::drive_file(&bytes, None, &c.args)) {
+        Ok(o) => o,
+        Err(p) => return strict_filter(&p, stats, strict),
+    };
+    let shape = miscgen::vc_shape(&c.font);
+    let depth = shape.iter().map(|g| g.1).max().unwrap_or(0);
+    stats.class(&format!("nesting_depth={}", depth.min(5)));
+    let sib = shape.iter().map(|g| g.2.iter().filter(|t| shape[**t].0).count()).max().unwrap_or(0);
+    stats.class(&format!("max_composite_siblings={}", sib.min(4)));
+    stats.class(&format!("gvar_edits={}", c.font.edits.len().min(3)));
+    let mism = c.font.glyphs.iter().any(|g| matches!(g, miscgen::VcGlyph::Composite { var, .. } if var.count_adj != 0 && !var.tuples.is_empty()));
+    if mism {
+        stats.class("composite_delta_count_mismatch");
+    }
+    let default_loc = c.args.coord_len == 0 || c.args.coord_bits.iter().all(|b| *b == 0);
+    stats.class(if default_loc { "location=default" } else { "location=non-default" });
+    stats.class_n("draws", o.draws);
+    stats.class_n("draws_ok", o.draws_ok);
+    stats.class_n("draws_insufficient_memory", o.insufficient_memory);
+    stats.class_n("hinting_instances", o.hint_instances);
+    if o.opened && o.draws_past_validation > 0 {
+        stats.nontrivial(hash_json(c));
+    }
+    Ok(())
+}
+
 // ---------------------------------------------------------------------------------------------
 
 fn tag4() -> impl Strategy<Value = [u8; 4]> {
@@ -421,6 +536,23 @@ pub fn stages(ctx: &Ctx, strict: bool) {
     // around the PostScript hinter's capacity limits, masks, subr chains, operand stacks, blend), see cffgen.rs
     let cstrat = || (crate::cffgen::strategy(), skargs_strategy()).prop_map(|(font, args)| crate::cffgen::CffCase { font, args });
     ctx.prop_stage("cff-generated", Isolation::Procs, ctx.n(60_000, 600_000), cstrat, |c, s| test_cff(c, s, strict));
+    // (2b'') three by-construction generators for classes byte mutation does not reach (miscgen.rs): format 2 patch maps with
+    // generated URI templates x numeric / string ids; hand-encoded name tables (version 1 language tags); variable fonts with
+    // nested composites, per-component gvar data and edits confined to that data, drawn at non-default locations
+    ctx.prop_stage("ift-uri-generated", Isolation::Procs, ctx.n(100_000, 1_000_000), crate::miscgen::uri_strategy, |c, s| test_uri(c, s, strict));
+    let nstrat = || (crate::miscgen::name_strategy(), proptest::collection::vec(prop_oneof![0u16..30, 250u16..260, any::<u16>()], 0..3), skargs_strategy()).prop_map(|(name, extra_ids, args)| crate::miscgen::NameCase { name, extra_ids, args });
+    ctx.prop_stage("name-generated", Isolation::Procs, ctx.n(80_000, 800_000), nstrat, |c, s| test_name(c, s, strict));
+    let vstrat = || {
+        (crate::miscgen::vc_strategy(), skargs_strategy(), proptest::option::weighted(0.85, crate::miscgen::vc_coords())).prop_map(|(font, mut args, coords)| {
+            // mostly non-default locations (the generated record's own coordinate modes otherwise)
+            if let Some(c) = coords {
+                args.coord_bits = c;
+                args.coord_len = 1;
+            }
+            crate::miscgen::VcCase { font, args }
+        })
+    };
+    ctx.prop_stage("varcomposite-generated", Isolation::Procs, ctx.n(60_000, 600_000), vstrat, |c, s| test_vc(c, s, strict));
     // (2c) structurally valid fonts with hostile values (extreme coordinates / metrics / upem / transforms, several
     // limit-valued gvar tuples active at once, generated prep), driven like any other font
     let hstrat = || (crate::hostile::strategy(), skargs_strategy()).prop_map(|(font, args)| HostileCase { font, args });
